@@ -268,6 +268,9 @@ def gen_plan(tape, cfg):
                 # later the service is taught about the node type (both twins), then asked again
                 pending_retry.insert(0, dict(o, op="both_fault"))
                 pending_retry.insert(0, {"op": "call", "call": "register_dwf", "i": 0, "service": o["service"]})
+            if o["kind"] == "printer_unsupported":
+                # the same printer object prints the next formula
+                pending_retry.insert(0, {"op": "print_long", "i": tape.draw(len(pool), "print.formula"), "printer": o["printer"]})
             if o["kind"] == "bad_cmdgen":
                 # later the same name is used by a command that does not bind it
                 pending_retry.insert(0, {"op": "cmdgen", "text": "(assert (= %s 3))" % BAD_CMDS[o["which"]][1]})
